@@ -222,7 +222,7 @@ pub fn replay_game(v: &Value, mk: fn() -> Box<dyn Obs>) -> Result<Option<Fail>, 
     };
     let has_branch = v["branch"].as_array().map(|a| !a.is_empty()).unwrap_or(false);
     let inject = if has_branch { crate::drive::Inject::No } else { inject };
-    let opts = WalkOpts { profile, expand: None, follow_norep: v["follow_norep"].as_bool().unwrap_or(false), inject };
+    let opts = WalkOpts { profile, expand: None, follow_norep: v["follow_norep"].as_bool().unwrap_or(false), inject, interfere: false };
     let mut obs = mk();
     let mut st = Stats::default();
     // main line
